@@ -163,6 +163,13 @@ func effectScan(prog *Program, cs *ContractSet) ([]*ObligSummary, []string, []st
 							continue
 						}
 						name := f.String()
+						// atomics / sync.Map on a package-level variable: process-local mutable state (sync.Pool is exempt:
+						// pooled scratch objects are reset before use)
+						if (strings.Contains(name, "sync/atomic.") || strings.HasPrefix(name, "(*sync.Map).")) && len(cc.Args) > 0 {
+							if g := globalRoot(cc.Args[0]); g != nil {
+								add("atomic operation " + f.Name() + " on package-level variable " + g.Pkg.Pkg.Name() + "." + g.Name())
+							}
+						}
 						for _, d := range nondetDeny {
 							if name == d || (strings.HasSuffix(d, ".") && strings.HasPrefix(name, d)) {
 								add("call of " + name)
